@@ -15,7 +15,8 @@ EXPLANATION = ("The `cryptography` package is a trusted external; equality with 
                "RFC 3394 wrap (wrapping key, material - in that order), key generation (one fresh urandom value of "
                "length/8 bytes) and Sign (key loaded from the given bytes, the given data) are under contract too; "
                "each key derivation function is built with the table's hash, the requested length and the request's "
-               "salt / iterations / derivation data and run on the key material; signature verification is not.")
+               "salt / iterations / derivation data and run on the key material; SignatureVerify loads the key from the "
+               "given bytes and answers valid only if verify(signature, message, ...) returned normally.")
 ASSUMPTIONS = ["the cryptography package computes the named primitives correctly, rejects tampered authenticated "
                "input in finalize(), and os.urandom returns fresh bytes of the requested length",
                "CryptographyEngine.create_symmetric_key returns length // 8 fresh bytes (model of the handler pass)"]
@@ -23,7 +24,7 @@ ASSUMPTIONS = ["the cryptography package computes the named primitives correctly
 
 def OBLIGATION_FILTER(name):
     return any(k in name for k in ('trace.same-cipher', 'trace.derived-material', 'trace.rfc3394', 'trace.fresh-key', 'trace.hmac',
-                                   'trace.signature', 'trace.kdf', '/exploration', '/fragment',
+                                   'trace.signature', 'trace.kdf', 'trace.verify', '/exploration', '/fragment',
                                    '/extract', 'raises.'))
 
 
